@@ -1,4 +1,631 @@
 package main
 
-func checkMain(args []string) int  { return 2 }
-func replayMain(args []string) int { return 2 }
+import (
+	"bufio"
+	"crypto/sha1"
+	"encoding/json"
+	"fmt"
+	"io"
+	"os"
+	"os/exec"
+	"path/filepath"
+	"runtime"
+	"sort"
+	"strconv"
+	"strings"
+	"sync"
+	"time"
+
+	"verif/internal/interp"
+)
+
+type propSpec struct {
+	ID          string
+	Build       func(tier string, seed int) []Unit
+	Rule        string
+	Assumptions []string
+	Witnesses   []string // reach ids that must be hit somewhere in the run (vacuity guard)
+	Bounds      func(tier string) map[string]any
+	Encoded     []string // functions named in the claim (informational; measured list is in evidence)
+}
+
+var props = map[string]*propSpec{}
+
+func register(p *propSpec) { props[p.ID] = p }
+
+type knownFinding struct {
+	Property string `json:"property"`
+	Key      string `json:"key"`
+	Status   string `json:"status"` // "open" or "fixed"
+	What     string `json:"what"`
+	Commit   string `json:"commit,omitempty"`
+}
+
+func loadKnown() []knownFinding {
+	var out []knownFinding
+	f, err := os.Open(filepath.Join(verifDir, "known_findings.jsonl"))
+	if err != nil {
+		return nil
+	}
+	defer f.Close()
+	sc := bufio.NewScanner(f)
+	sc.Buffer(make([]byte, 1<<20), 1<<20)
+	for sc.Scan() {
+		l := strings.TrimSpace(sc.Text())
+		if l == "" || strings.HasPrefix(l, "#") {
+			continue
+		}
+		var k knownFinding
+		if json.Unmarshal([]byte(l), &k) == nil {
+			out = append(out, k)
+		}
+	}
+	return out
+}
+
+// violationKey identifies a finding independently of the solver's model.
+func violationKey(prop string, u Unit, v interp.Violation) string {
+	p := u.Params
+	return strings.Join([]string{prop, u.Harness, v.ID, p["pattern"], "opts=" + p["options"], "copts=" + p["copts"], p["key_extra"]}, "|")
+}
+
+type runStats struct {
+	units, skipped, broken, undecidedUnits int
+	paths                                  int
+	decisions, implied                     int64
+	queries, sat, unsat, unknown, solverErr int
+	solverS                                float64
+	steps                                  int64
+	aborted                                map[string]int
+	reached                                map[string]int
+	intrinsics                             map[string]int64
+	fnSteps                                map[string]int64
+}
+
+type workerProc struct {
+	cmd *exec.Cmd
+	in  io.WriteCloser
+	out *bufio.Reader
+}
+
+func startWorker() (*workerProc, error) {
+	self, _ := os.Executable()
+	cmd := exec.Command(self, "worker")
+	cmd.Stderr = os.Stderr
+	in, err := cmd.StdinPipe()
+	if err != nil {
+		return nil, err
+	}
+	out, err := cmd.StdoutPipe()
+	if err != nil {
+		return nil, err
+	}
+	if err := cmd.Start(); err != nil {
+		return nil, err
+	}
+	return &workerProc{cmd, in, bufio.NewReaderSize(out, 1<<20)}, nil
+}
+
+func (w *workerProc) kill() {
+	w.in.Close()
+	w.cmd.Process.Kill()
+	w.cmd.Wait()
+}
+
+// runUnits distributes units over worker processes.
+func runUnits(units []Unit, nworkers int, unitTimeout time.Duration, progress bool) []UnitResult {
+	results := make([]UnitResult, len(units))
+	var next int
+	var mu sync.Mutex
+	var wg sync.WaitGroup
+	done := 0
+	t0 := time.Now()
+	if nworkers > len(units) {
+		nworkers = len(units)
+	}
+	for w := 0; w < nworkers; w++ {
+		wg.Add(1)
+		go func() {
+			defer wg.Done()
+			var wp *workerProc
+			defer func() {
+				if wp != nil {
+					wp.in.Close()
+					wp.cmd.Wait()
+				}
+			}()
+			for {
+				mu.Lock()
+				i := next
+				next++
+				mu.Unlock()
+				if i >= len(units) {
+					return
+				}
+				if wp == nil {
+					var err error
+					wp, err = startWorker()
+					if err != nil {
+						results[i] = UnitResult{Unit: units[i], Broken: "cannot start worker: " + err.Error()}
+						continue
+					}
+				}
+				b, _ := json.Marshal(units[i])
+				wp.in.Write(append(b, '\n'))
+				type rd struct {
+					line string
+					err  error
+				}
+				ch := make(chan rd, 1)
+				go func(r *bufio.Reader) {
+					l, err := r.ReadString('\n')
+					ch <- rd{l, err}
+				}(wp.out)
+				select {
+				case r := <-ch:
+					if r.err != nil {
+						results[i] = UnitResult{Unit: units[i], Broken: "worker died: " + r.err.Error()}
+						wp.kill()
+						wp = nil
+					} else if err := json.Unmarshal([]byte(r.line), &results[i]); err != nil {
+						results[i] = UnitResult{Unit: units[i], Broken: "bad worker output: " + err.Error()}
+					}
+				case <-time.After(unitTimeout):
+					wp.kill()
+					wp = nil
+					results[i] = UnitResult{Unit: units[i], Undecided: []string{"unit-timeout"}}
+				}
+				mu.Lock()
+				done++
+				if progress && done%50 == 0 {
+					fmt.Fprintf(os.Stderr, "  .. %d/%d units, %.0fs\n", done, len(units), time.Since(t0).Seconds())
+				}
+				mu.Unlock()
+			}
+		}()
+	}
+	wg.Wait()
+	return results
+}
+
+func tierOf(args []string) string {
+	t := os.Getenv("VERIF_TIER")
+	if len(args) > 1 {
+		t = args[1]
+	}
+	if t != "thorough" {
+		t = "quick"
+	}
+	return t
+}
+
+func checkMain(args []string) int {
+	if len(args) < 1 {
+		fmt.Fprintln(os.Stderr, "usage: gosym check <property> [quick|thorough]")
+		return 2
+	}
+	id := args[0]
+	p := props[id]
+	if p == nil {
+		fmt.Fprintf(os.Stderr, "unknown property %s\n", id)
+		return 2
+	}
+	tier := tierOf(args)
+	seed, _ := strconv.Atoi(os.Getenv("VERIF_SEED"))
+	t0 := time.Now()
+	units := p.Build(tier, seed)
+	if lim, _ := strconv.Atoi(os.Getenv("GOSYM_MAXUNITS")); lim > 0 && len(units) > lim {
+		units = units[:lim]
+	}
+	// vacuity canary: an assertion that must be reported as failing
+	units = append(units, Unit{ID: "canary", Harness: "canary", Params: map[string]string{"n": "2"}, Domain: "quick"})
+	for i := range units {
+		if units[i].Domain == "" {
+			if tier == "thorough" {
+				units[i].Domain = "full"
+			} else {
+				units[i].Domain = "quick"
+			}
+		}
+		if i%40 == 0 {
+			units[i].CountFns = true
+		}
+	}
+	nw := runtime.NumCPU()
+	if n, _ := strconv.Atoi(os.Getenv("GOSYM_WORKERS")); n > 0 {
+		nw = n
+	}
+	ut := 180 * time.Second
+	if tier == "thorough" {
+		ut = 900 * time.Second
+	}
+	fmt.Fprintf(os.Stderr, "gosym: %s %s: %d units on %d workers\n", id, tier, len(units), nw)
+	results := runUnits(units, nw, ut, true)
+	return report(p, tier, seed, results, t0)
+}
+
+type replayCase struct {
+	ID      string            `json:"id"`
+	Pkg     string            `json:"pkg"`
+	Harness string            `json:"harness"`
+	Params  map[string]string `json:"params"`
+	Model   map[string]uint64 `json:"model"`
+	// expectations
+	WantFail string   `json:"want_fail,omitempty"` // assertion id expected to fail
+	Notes    []string `json:"notes,omitempty"`     // notes recorded by the interpreter on this path
+}
+
+type replayOut struct {
+	ID       string   `json:"id"`
+	Failures []string `json:"failures"`
+	Notes    []string `json:"notes"`
+	Panic    string   `json:"panic"`
+}
+
+func report(p *propSpec, tier string, seed int, results []UnitResult, t0 time.Time) int {
+	st := runStats{aborted: map[string]int{}, reached: map[string]int{}, intrinsics: map[string]int64{}, fnSteps: map[string]int64{}}
+	var undecided, broken []string
+	type viol struct {
+		u Unit
+		v interp.Violation
+	}
+	var viols []viol
+	canaryOK := false
+	var samples []any
+	var passing []replayCase
+	patterns := map[string]bool{}
+	nontrivial := 0
+	for _, r := range results {
+		if r.Unit.Harness == "canary" {
+			for _, v := range r.Violations {
+				if v.ID == "canary" {
+					canaryOK = true
+				}
+			}
+			if r.Broken != "" {
+				broken = append(broken, "canary: "+r.Broken)
+			}
+			continue
+		}
+		st.units++
+		if r.Broken != "" {
+			st.broken++
+			broken = append(broken, r.Unit.ID+": "+firstLine(r.Broken))
+			continue
+		}
+		if r.Skipped != "" {
+			st.skipped++
+			continue
+		}
+		if len(r.Undecided) > 0 {
+			st.undecidedUnits++
+			undecided = append(undecided, r.Unit.ID+": "+strings.Join(uniq(r.Undecided), ","))
+		}
+		st.paths += r.Paths
+		st.decisions += r.Decisions
+		st.implied += r.Implied
+		st.queries += r.Queries
+		st.sat += r.Sat
+		st.unsat += r.Unsat
+		st.unknown += r.Unknown
+		st.solverErr += r.SolverErr
+		st.solverS += r.SolverS
+		st.steps += r.Steps
+		for k, v := range r.Aborted {
+			st.aborted[k] += v
+		}
+		for k, v := range r.Reached {
+			st.reached[k] += v
+		}
+		for k, v := range r.Intrinsics {
+			st.intrinsics[k] += v
+		}
+		for k, v := range r.FnSteps {
+			st.fnSteps[k] += v
+		}
+		if r.Paths > 1 {
+			nontrivial++
+		}
+		patterns[r.Unit.Params["pattern"]+"|"+r.Unit.Params["options"]] = true
+		for _, v := range r.Violations {
+			viols = append(viols, viol{r.Unit, v})
+		}
+		for k, s := range r.Samples {
+			if len(samples) < 6 && k == len(r.Samples)-1 && r.Paths > 1 {
+				samples = append(samples, map[string]any{"unit": r.Unit.ID, "params": r.Unit.Params, "paths_in_unit": r.Paths,
+					"model": s.Model, "observed": s.Notes, "path_conditions": s.Conds})
+			}
+			passing = append(passing, replayCase{ID: fmt.Sprintf("%s#%d", r.Unit.ID, k), Pkg: r.Unit.Pkg, Harness: r.Unit.Harness, Params: r.Unit.Params, Model: s.Model, Notes: s.Notes})
+		}
+	}
+	exit := 0
+	var lines []string
+	if !canaryOK {
+		broken = append(broken, "vacuity canary: the always-false assertion was not reported")
+	}
+	for _, w := range p.Witnesses {
+		if st.reached[w] == 0 {
+			broken = append(broken, "vacuity: witness "+w+" was never reached")
+		}
+	}
+	// known findings
+	known := loadKnown()
+	knownOpen := map[string]knownFinding{}
+	for _, k := range known {
+		if k.Property == p.ID && k.Status == "open" {
+			knownOpen[k.Key] = k
+		}
+	}
+	// replay: violations (must reproduce) and a sample of passing paths (must agree)
+	var cases []replayCase
+	type vrec struct {
+		key  string
+		u    Unit
+		v    interp.Violation
+		file string
+	}
+	var vrecs []vrec
+	seenKey := map[string]bool{}
+	for i, v := range viols {
+		key := violationKey(p.ID, v.u, v.v)
+		if seenKey[key] {
+			continue
+		}
+		seenKey[key] = true
+		rc := replayCase{ID: fmt.Sprintf("viol%d", i), Pkg: v.u.Pkg, Harness: v.u.Harness, Params: v.u.Params, Model: v.v.Model, WantFail: v.v.ID, Notes: v.v.Detail}
+		cases = append(cases, rc)
+		vrecs = append(vrecs, vrec{key: key, u: v.u, v: v.v})
+	}
+	maxPassing := 200
+	if tier == "thorough" {
+		maxPassing = 2000
+	}
+	if len(passing) > maxPassing {
+		stride := len(passing) / maxPassing
+		var sel []replayCase
+		for i := 0; i < len(passing); i += stride {
+			sel = append(sel, passing[i])
+		}
+		passing = sel
+	}
+	nv := len(cases)
+	cases = append(cases, passing...)
+	validated, reproduced := 0, map[string]bool{}
+	var knownSeen []string
+	if len(cases) > 0 && os.Getenv("GOSYM_NOREPLAY") == "" {
+		outs, err := nativeReplay(cases)
+		if err != nil {
+			broken = append(broken, "native replay failed: "+err.Error())
+		} else {
+			byID := map[string]replayOut{}
+			for _, o := range outs {
+				byID[o.ID] = o
+			}
+			for i, c := range cases {
+				o, ok := byID[c.ID]
+				if !ok {
+					broken = append(broken, "native replay: no result for "+c.ID)
+					continue
+				}
+				if i < nv {
+					hit := false
+					for _, f := range o.Failures {
+						if f == c.WantFail || strings.HasPrefix(f, c.WantFail+":") {
+							hit = true
+						}
+					}
+					if c.WantFail == "go-panic" || c.WantFail == "panic" {
+						hit = o.Panic != ""
+					}
+					if hit {
+						reproduced[c.ID] = true
+					} else {
+						broken = append(broken, fmt.Sprintf("counterexample %s (%s, %v) did not reproduce natively: failures=%v panic=%q notes=%v", c.ID, c.WantFail, c.Params, o.Failures, o.Panic, o.Notes))
+					}
+					continue
+				}
+				if len(o.Failures) > 0 || o.Panic != "" {
+					broken = append(broken, fmt.Sprintf("passing path %s fails natively: %v %s", c.ID, o.Failures, o.Panic))
+					continue
+				}
+				if !sameNotes(c.Notes, o.Notes) {
+					broken = append(broken, fmt.Sprintf("translation validation: %s %v model=%v: interpreter observed %v, native build observed %v", c.ID, c.Params, c.Model, c.Notes, o.Notes))
+					continue
+				}
+				validated++
+			}
+		}
+	}
+	os.MkdirAll(filepath.Join(verifDir, "replays"), 0o755)
+	nviol := 0
+	for i, vr := range vrecs {
+		cid := cases[i].ID
+		if !reproduced[cid] {
+			continue
+		}
+		if k, ok := knownOpen[vr.key]; ok {
+			lines = append(lines, fmt.Sprintf("KNOWN-FINDING: property=%s %s", p.ID, k.What))
+			knownSeen = append(knownSeen, vr.key)
+			continue
+		}
+		nviol++
+		h := sha1.Sum([]byte(vr.key))
+		file := filepath.Join(verifDir, "replays", fmt.Sprintf("%s-%x.json", p.ID, h[:6]))
+		b, _ := json.MarshalIndent(map[string]any{"property": p.ID, "key": vr.key, "harness": vr.u.Harness, "pkg": vr.u.Pkg, "params": vr.u.Params,
+			"model": vr.v.Model, "failed_assertion": vr.v.ID, "message": vr.v.Msg, "observed": vr.v.Detail}, "", " ")
+		os.WriteFile(file, b, 0o644)
+		lines = append(lines, fmt.Sprintf("VIOLATION property=%s replay=%s", p.ID, file))
+		fmt.Fprintf(os.Stderr, "  violation: %s  observed=%v model=%v\n", vr.key, vr.v.Detail, vr.v.Model)
+		exit = 1
+	}
+	decidedUnits := st.units - st.skipped - st.broken
+	if decidedUnits > 0 && st.undecidedUnits*20 > decidedUnits {
+		broken = append(broken, fmt.Sprintf("%d of %d units undecided (more than 5%%)", st.undecidedUnits, decidedUnits))
+	}
+	if decidedUnits == 0 {
+		broken = append(broken, "no unit was decided")
+	}
+	if len(broken) > 0 {
+		exit = 2
+	}
+	// evidence
+	fns := topFns(st.fnSteps, 60)
+	bounds := map[string]any{}
+	if p.Bounds != nil {
+		bounds = p.Bounds(tier)
+	}
+	if len(samples) == 0 {
+		samples = append(samples, "no multi-path unit in this run")
+	}
+	ev := map[string]any{
+		"property_id": p.ID,
+		"tier":        tier,
+		"seed":        seed,
+		"level":       "model_checking",
+		"wall_s":      time.Since(t0).Seconds(),
+		"violations":  nviol,
+		"assumptions": append([]string{
+			"intrinsic models of sync.Pool/Mutex, sync/atomic, fmt (opaque), unicode predicates and case maps (host tables as SMT define-funs), bytealg, strings.Builder.String",
+			"go/ssa construction and the forked interpreter's semantics (cross-checked per run by native replay of sampled paths)",
+			"z3 " + envOr("GOSYM_SOLVER", "z3-new") + " answers; unknown/error answers make a unit undecided, never passed",
+		}, p.Assumptions...),
+		"coverage": map[string]any{
+			"states":                        st.paths,
+			"transitions":                   st.decisions,
+			"traces_validated_against_impl": validated,
+			"samples":                       samples,
+			"evaluations":                   st.paths,
+			"distinct_nontrivial":           nontrivial,
+			"rule":                          p.Rule + " One evaluation = one feasible path class of one unit, decided for all values of the symbolic inputs in that class; a unit is non-trivial if its symbolic inputs split into more than one path class.",
+			"exhaustive":                    len(undecided) == 0 && len(broken) == 0,
+			"units":                         st.units,
+			"units_skipped_setup":           st.skipped,
+			"units_undecided":               undecided,
+			"units_broken":                  broken,
+			"patterns":                      len(patterns),
+			"decisions_implied":             st.implied,
+			"queries":                       map[string]any{"total": st.queries, "sat": st.sat, "unsat": st.unsat, "unknown": st.unknown, "errors": st.solverErr},
+			"solver_s":                      st.solverS,
+			"interpreted_instructions":      st.steps,
+			"paths_aborted":                 st.aborted,
+			"witnesses":                     st.reached,
+			"intrinsics_hit":                st.intrinsics,
+			"functions_encoded_sampled":     fns,
+			"bounds":                        bounds,
+			"known_findings_seen":           knownSeen,
+			"counterexamples_replayed":      nv,
+		},
+	}
+	os.MkdirAll(filepath.Join(verifDir, "evidence"), 0o755)
+	b, _ := json.MarshalIndent(ev, "", " ")
+	os.WriteFile(filepath.Join(verifDir, "evidence", p.ID+".json"), b, 0o644)
+	for _, l := range lines {
+		fmt.Println(l)
+	}
+	for _, b := range broken {
+		fmt.Fprintf(os.Stderr, "BROKEN: %s\n", b)
+	}
+	if len(undecided) > 0 {
+		fmt.Fprintf(os.Stderr, "undecided units (%d): %s\n", len(undecided), strings.Join(head(undecided, 8), "; "))
+	}
+	fmt.Fprintf(os.Stderr, "gosym: %s %s: units=%d skipped=%d paths=%d decisions=%d queries=%d (sat %d unsat %d unknown %d) solver=%.1fs validated=%d violations=%d known=%d wall=%.1fs exit=%d\n",
+		p.ID, tier, st.units, st.skipped, st.paths, st.decisions, st.queries, st.sat, st.unsat, st.unknown, st.solverS, validated, nviol, len(knownSeen), time.Since(t0).Seconds(), exit)
+	return exit
+}
+
+func sameNotes(a, b []string) bool {
+	norm := func(s string) string { return strings.ReplaceAll(s, "~", "") }
+	if len(a) != len(b) {
+		return false
+	}
+	for i := range a {
+		if norm(a[i]) != norm(b[i]) {
+			return false
+		}
+	}
+	return true
+}
+
+func firstLine(s string) string {
+	if i := strings.IndexByte(s, '\n'); i >= 0 {
+		return s[:i]
+	}
+	return s
+}
+
+func uniq(xs []string) []string {
+	m := map[string]bool{}
+	var out []string
+	for _, x := range xs {
+		if !m[x] {
+			m[x] = true
+			out = append(out, x)
+		}
+	}
+	return out
+}
+
+func head(xs []string, n int) []string {
+	if len(xs) > n {
+		return xs[:n]
+	}
+	return xs
+}
+
+func topFns(m map[string]int64, n int) map[string]int64 {
+	type kv struct {
+		k string
+		v int64
+	}
+	var kvs []kv
+	for k, v := range m {
+		if strings.Contains(k, "dlclark/regexp2") || strings.HasPrefix(k, "regexp") || strings.HasPrefix(k, "(*regexp") {
+			kvs = append(kvs, kv{k, v})
+		}
+	}
+	sort.Slice(kvs, func(i, j int) bool { return kvs[i].v > kvs[j].v })
+	out := map[string]int64{}
+	for i, e := range kvs {
+		if i >= n {
+			break
+		}
+		out[strings.ReplaceAll(e.k, "github.com/dlclark/regexp2/v2", "regexp2")] = e.v
+	}
+	return out
+}
+
+func replayMain(args []string) int {
+	if len(args) < 1 {
+		fmt.Fprintln(os.Stderr, "usage: gosym replay <file>")
+		return 2
+	}
+	b, err := os.ReadFile(args[0])
+	if err != nil {
+		fmt.Fprintln(os.Stderr, err)
+		return 2
+	}
+	var rec struct {
+		Property string            `json:"property"`
+		Harness  string            `json:"harness"`
+		Pkg      string            `json:"pkg"`
+		Params   map[string]string `json:"params"`
+		Model    map[string]uint64 `json:"model"`
+		Failed   string            `json:"failed_assertion"`
+	}
+	if err := json.Unmarshal(b, &rec); err != nil {
+		fmt.Fprintln(os.Stderr, err)
+		return 2
+	}
+	outs, err := nativeReplay([]replayCase{{ID: "r", Pkg: rec.Pkg, Harness: rec.Harness, Params: rec.Params, Model: rec.Model, WantFail: rec.Failed}})
+	if err != nil {
+		fmt.Fprintln(os.Stderr, err)
+		return 2
+	}
+	o := outs[0]
+	fmt.Printf("failures=%v panic=%q observed=%v\n", o.Failures, o.Panic, o.Notes)
+	if len(o.Failures) > 0 || o.Panic != "" {
+		fmt.Printf("VIOLATION property=%s replay=%s\n", rec.Property, args[0])
+		return 1
+	}
+	return 0
+}
